@@ -111,6 +111,11 @@ class FAlg:
         return v == 0
 
     def lt(self, a, b):
+        # a comparison whose operands agree to within rounding can legitimately come out either way in floating point
+        # (the oracle and the code may round intermediate results differently): undefined, never a violation
+        if abs(a - b) <= 1e-9 * max(1.0, abs(a), abs(b)):
+            self.undef_seen = True
+            return UNDEF
         return 1.0 if a < b else 0.0
 
     def neg(self, v):
